@@ -49,6 +49,12 @@ def run(chk, repo, tier):
                         'expansion the interpreter gives to a range', floor=1)
     G10 = chk.rule('G10', 'Option(...) is constructed from a boolean expression over .option flags / constants, never '
                           'from the truthiness of an object', floor=3)
+    G11 = chk.rule('G11', 'partitions() keeps the input order inside every part (iivsearch compares name tuples)', floor=3)
+    from rules import C18b
+    C18b.run_g11(chk, G11, repo)
+    G12 = chk.rule('G12', 'stepwise search: the peripheral step decision depends on the steps already taken; category and '
+                          'repetition guards present', floor=2)
+    C18b.run_g12(chk, G12, repo)
     G8 = chk.rule('G8', 'children[k] is not read unconditionally when the interpreter itself asserts that fewer '
                         'children are possible', floor=3)
 
